@@ -14,6 +14,7 @@ import Driver.Line
 import Driver.StreamCase
 import Driver.PathCase
 import Driver.AliasCase
+import Driver.TimeCase
 
 open Jl
 
@@ -29,6 +30,7 @@ def runLine (line : String) : Driver.Result :=
     Driver.StreamCase.runStream prop ti to proc reader writer ext impl
   | ["path", _, row, op, path, val, ext, impl] => Driver.PathCase.runPath row op path val ext impl
   | ["probe", _, what, impl] => Driver.PathCase.runProbe what impl
+  | ["timert", _, zone, src, ext, s1, s2, s3, s4] => Driver.TimeCase.runCase zone src ext s1 s2 s3 s4
   | ["alias", _, tmpl, ops, ext, obs] => Driver.AliasCase.runCase tmpl ops ext obs
   | ["conc", _, tmpl, cfg, impl] =>
     if impl == "same" then ⟨"S", ""⟩
